@@ -9,6 +9,7 @@ CONSTANTS
   Listeners <- L1
   MaxUser = 3
   Waits <- W2
+  Timed = FALSE
 INVARIANT TypeOK
 INVARIANT CircuitsMatch
 INVARIANT StreamsMatch
@@ -18,3 +19,4 @@ INVARIANT NoExc
 INVARIANT WaitsOnce
 INVARIANT BuiltWaits
 INVARIANT CloseWaits
+INVARIANT TimedBuilds
